@@ -41,9 +41,11 @@ static void setModel(Z3_model m) {
 // ---------------------------------------------------------------------------------- queries
 enum Res { R_UNSAT, R_SAT, R_UNKNOWN };
 static Res solveFallback(Z3_ast extra, Z3_model* outModel);
+[[noreturn]] static void endProcess(int code);
 
 static Res solve(Z3_ast extra, Z3_model* outModel) {
   double t0 = nowS();
+  if (t0 - T0 > OPT.wallCap) { SH->budgetHit++; SH->stop = 1; endProcess(0); }
   Z3_solver_push(Z, SOLVER);
   Z3_solver_assert(Z, SOLVER, extra);
   Z3_lbool r = Z3_solver_check(Z, SOLVER);
@@ -70,7 +72,7 @@ static Res solveFallback(Z3_ast extra, Z3_model* outModel) {
   Z3_solver_inc_ref(Z, s2);
   Z3_params p = Z3_mk_params(Z);
   Z3_params_inc_ref(Z, p);
-  Z3_params_set_uint(Z, p, Z3_mk_string_symbol(Z, "rlimit"), OPT.rlimit * 10);
+  Z3_params_set_uint(Z, p, Z3_mk_string_symbol(Z, "rlimit"), OPT.rlimit * 5);
   Z3_solver_set_params(Z, s2, p);
   for (Z3_ast a : PC) Z3_solver_assert(Z, s2, a);
   Z3_solver_assert(Z, s2, extra);
@@ -80,14 +82,14 @@ static Res solveFallback(Z3_ast extra, Z3_model* outModel) {
     *outModel = Z3_solver_get_model(Z, s2);
     Z3_model_inc_ref(Z, *outModel);
   }
-  if (res == R_UNKNOWN) {
+  if (res == R_UNKNOWN && OPT.cvc5Ms) {
     // export and ask cvc5 (only an `unsat` answer is used; anything else stays unknown)
     std::string f = OPT.out + "/q_" + std::to_string(getpid()) + ".smt2";
     FILE* fp = fopen(f.c_str(), "w");
     if (fp) {
       fprintf(fp, "(set-logic QF_BV)\n%s\n(check-sat)\n", Z3_solver_to_string(Z, s2));
       fclose(fp);
-      std::string cmd = "cvc5 --solve-bv-as-int=sum --tlimit=120000 " + f + " 2>&1";
+      std::string cmd = "cvc5 --solve-bv-as-int=sum --tlimit=" + std::to_string(OPT.cvc5Ms) + " " + f + " 2>&1";
       FILE* pp = popen(cmd.c_str(), "r");
       if (pp) {
         char buf[256]; std::string outp;
@@ -113,7 +115,7 @@ static void addPC(Z3_ast a) {
 }
 
 // ---------------------------------------------------------------------------------- process exit
-[[noreturn]] static void endProcess(int code = 0) {
+[[noreturn]] static void endProcess(int code) {
   fflush(stdout); fflush(stderr);
   SH->instr += pathInstr;
   uint64_t m = SH->maxPathInstr.load();
